@@ -303,8 +303,8 @@ func builtinStringReplace(call FunctionCall) Value {
 					argumentList[index] = Value{}
 				}
 			}
-			// Replace expects rune offsets not byte offsets.
-			startIndex := utf8.RuneCountInString(target[0:match[0]])
+			// Replace expects utf16 offsets not byte offsets.
+			startIndex := utf16Length(target[0:match[0]])
 			argumentList[matchCount+0] = intValue(startIndex)
 			argumentList[matchCount+1] = stringValue(target)
 			replacement := replace.call(Value{}, argumentList, false, nativeFrame).string()
